@@ -16,15 +16,29 @@ ModelAgrees(r) ==
 RecOk(r) == IF Mode = "drift" THEN ModelAgrees(r)
             ELSE IF r.k = "doc" THEN DocOk(r) ELSE EscOk(r)
 
+\* detail of a "suffix-changed" verdict: the expected byte at the first position where the query/fragment
+\* read back from the output differs from the source's, and the expected byte after it ("92_61": a
+\* backslash before '=' was lost) - the root cause, whatever the rest of the destination is
+SuffixDetail(r, v) ==
+  LET sp == r.spans[v.k]
+      want == PctDecode(SuffixPart(RefUnescape(OldDest(r.src, sp))))
+      got == PctDecode(SuffixPart(RefUnescape(v.x)))
+      diff == {i \in 1..Len(want) : i > Len(got) \/ got[i] # want[i]} IN
+  IF diff = {} THEN "longer"
+  ELSE LET i == CHOOSE j \in diff : \A j2 \in diff : j <= j2 IN
+       ToString(want[i]) \o "_" \o (IF i < Len(want) THEN ToString(want[i + 1]) ELSE "end")
+
 \* signature: cause + kind of the blamed block + nearest preceding block kind that leaves an HTML-like
-\* construct open ("-" when none): specific to the root cause, not to the whole document
+\* construct open ("-" when none; for "suffix-changed" the detail above): specific to the root cause, not
+\* to the whole document.  (Fence documents: the "block" blamed is the fence line before the link line.)
 Sig(r) ==
   IF Mode = "drift" THEN [fam |-> "linkdest", cause |-> "drift", kind |-> r.k, after |-> "-"]
   ELSE IF r.k = "esc" THEN [fam |-> "linkdest", cause |-> "esc-roundtrip", kind |-> "esc", after |-> "-"]
   ELSE LET v == DocVerdict(r) IN
        [fam |-> "linkdest", cause |-> v.cause,
         kind |-> IF v.b = 0 THEN "-" ELSE r.kinds[v.b],
-        after |-> IF v.b = 0 THEN OpenBefore(r.kinds, Len(r.kinds)) ELSE OpenBefore(r.kinds, v.b - 1)]
+        after |-> IF v.cause = "suffix-changed" THEN SuffixDetail(r, v)
+                  ELSE IF v.b = 0 THEN OpenBefore(r.kinds, Len(r.kinds)) ELSE OpenBefore(r.kinds, v.b - 1)]
 
 (* ---- record-walk skeleton (spec/lib2/Trace_HTMLEscape.tla) with ONE change: bad.ndjson lists one record per
         distinct signature (the first observation having it, with the number n of observations sharing it)
